@@ -73,7 +73,7 @@ def generate(seed: int, tier: str = "quick") -> Dict[str, Any]:
         "n_threads": n,
         "runners": runners,
         "same_shape": rc.random() < 0.5,
-        "same_text": rc.random() < 0.25,
+        "same_text": rc.random() < 0.3,
         "same_env": gen.gen_env(rc, "C") if rc.random() < 0.6 else None,
         "host_share": rc.choice([0.0, 0.0, 0.3]),
         "pre": rc.choice([None, None, "I", "C", "same"]),
@@ -87,7 +87,8 @@ def generate(seed: int, tier: str = "quick") -> Dict[str, Any]:
     if cfg["pre"] == "same":
         cfg["pre"] = runners[0]
     # schedule policy (per run, not per workload)
-    kind = rs.choice(["pct", "pct", "pct", "random", "random", "hot", "hot", "hot", "roundrobin"])
+    kind = rs.choice(["pct", "pct", "pct", "random", "random", "hot", "hot", "roundrobin",
+                      "focus", "focus", "focus"])
     pol: Dict[str, Any] = {"kind": kind, "seed": kit.H(seed, "policy")}
     if kind == "pct":
         pol["depth"] = rs.choice([1, 2, 2, 3, 3])
@@ -96,6 +97,12 @@ def generate(seed: int, tier: str = "quick") -> Dict[str, Any]:
     elif kind == "hot":
         pol["p"] = rs.choice([0.0002, 0.0005, 0.001, 0.003, 0.01])
         pol["mult"] = rs.choice([20.0, 50.0, 100.0])
+    elif kind == "focus":
+        from .sched import FOCUS_CHOICES
+
+        pol["focus"] = rs.choice(FOCUS_CHOICES)
+        pol["p_in"] = rs.choice([0.2, 0.5, 0.5, 1.0])
+        pol["p_out"] = rs.choice([0.0, 0.0002, 0.001])
     else:
         pol["q"] = rs.choice([1, 2, 3, 5, 10, 37, 200, 1000])
     trace_lark = tier == "thorough" and rs.random() < 0.05
@@ -456,7 +463,7 @@ def sample_view(trace: Dict[str, Any]) -> Dict[str, Any]:
 
 RULE = ("a case is one (workload, schedule) pair: 2-4 real threads, each with its own Environment, "
         "program(s) and bindings, run under the seeded baton-passing scheduler (policies pct(d<=3), "
-        "random(p), hot(p), roundrobin(q); pre-emption at every Python line of celpy and of "
+        "random(p), hot(p), focus(function), roundrobin(q); pre-emption at every Python line of celpy and of "
         "transpiled code) and compared per operation with the same thread run alone; non-trivial = "
         "at least one pre-emptive switch that resumes a thread in the middle of its work; distinct = "
         "distinct digests of (sequence of switch sites, all outcomes)")
